@@ -8,7 +8,7 @@ from .common import CLIENTS, REAL_NET, STUB_NET, ASSUME_NET, viol
 ID = "C19"
 ENGINE = "netsim"
 LEVEL = "exploration"
-RUNS = {"quick": 16000, "thorough": 500000}
+RUNS = {"quick": 40000, "thorough": 1500000}
 BUDGET_S = {"quick": 45, "thorough": 480}
 BATCH = 40
 QUIET_S = 30.0
